@@ -761,6 +761,18 @@ class Comp:
                     env2[var] = Val("elems", "(%s ++ [%s])" % (cur.t, elem_term(v)))
                 return k(Val("unit"), env2, st2)
             return self.ex(args[0], env, st, fl, k1)
+        if name == "swap_remove" and len(args) == 1 and var:
+            def ksr(i, env2, st2):
+                if i.ty != "nat":
+                    raise Untranslatable("swap_remove index")
+                cur = env2[var]
+
+                def kb(v, env3, st3):
+                    env3[var] = v
+                    return k(Val("unit"), env3, st3)
+                self.hint = var
+                return self.bind_part("TieSddCoreCompress.swapRemove? %s %s" % (par(cur.t), par(i.t)), var, "elems", env2, st2, kb)
+            return self.ex(args[0], env, st, fl, ksr)
         if name == "sort_by_key" and len(args) == 1 and var and args[0][0] == "closure":
             c = args[0]
             if not (len(c[1]) == 1 and c[1][0][0] == "bind" and c[2] == ("mcall", ("id", c[1][0][1]), "prime", [])):
@@ -1092,6 +1104,13 @@ class Comp:
                     return k(Val("bool", "(if %s then %s else %s)" % (as_prop(c), to_bool(a), to_bool(b))), env, st)
         if self.pure_mode:
             raise Impure()
+        if cond[0] == "bin" and cond[1] in ("&&", "||") and self.try_pure(cond, dict(env), st) is None \
+                and self.try_pure(cond[2], dict(env), st) is not None:
+            # short-circuit with a partial right operand: `if a && b {T} else {E}` = `if a { if b {T} else {E} } else {E}`
+            els = el if el is not None else ("block", [], None)
+            if cond[1] == "&&":
+                return self.if_(("if", cond[2], ("block", [], ("if", cond[3], th, els)), els), env, st, fl, k)
+            return self.if_(("if", cond[2], th, ("block", [], ("if", cond[3], th, els))), env, st, fl, k)
         # `if v.len() == k { .. }`  ->  match on the shape of the list
         lk = self.len_known(cond, env)
         if lk is not None:
@@ -1331,9 +1350,15 @@ class Comp:
         if kind == "for":
             if self.pure_mode:
                 raise Impure()
+            if s[2][0] == "range":
+                return self.state_loop("for", s[2], s[1], s[3], env, st, fl, rest)
             return self.for_(s[1], s[2], s[3], env, st, fl, rest)
         if kind == "while":
-            raise Untranslatable("`while` loop (index-based in-place mutation is outside the grammar)")
+            if self.pure_mode:
+                raise Impure()
+            if s[1][0] == "let":
+                raise Untranslatable("`while let`")
+            return self.state_loop("while", s[1], None, s[2], env, st, fl, rest)
         if kind == "assign":
             if self.pure_mode:
                 raise Impure()
@@ -1348,6 +1373,29 @@ class Comp:
                     env2[lhs[1]] = v
                     return rest(env2, st2)
                 return self.ex(rhs, env, st, fl, ka)
+            if lhs[0] == "id" and lhs[1] in env and op in ("+=", "-=") and env[lhs[1]].ty == "nat":
+                def kp(v, env2, st2):
+                    if v.ty != "nat":
+                        raise Untranslatable("`+=` of a " + v.ty)
+                    env2[lhs[1]] = Val("nat", "(%s %s %s)" % (par(env2[lhs[1]].t), op[0], par(v.t)))
+                    return rest(env2, st2)
+                return self.ex(rhs, env, st, fl, kp)
+            if lhs[0] == "index" and lhs[1][0] == "id" and lhs[1][1] in env and op == "=" \
+                    and env[lhs[1][1]].ty == "elems":
+                # v[i] = e : evaluate e, then i (bounds check = panic), then store
+                var = lhs[1][1]
+
+                def ki(vs, env2, st2):
+                    v, i = vs
+                    if v.ty != "elem" or i.ty != "nat":
+                        raise Untranslatable("indexed store of %s at %s" % (v.ty, i.ty))
+                    cur = env2[var]
+
+                    def kb(_e, env3, st3):
+                        env3[var] = Val("elems", "(%s.set %s %s)" % (par(cur.t), par(i.t), elem_term(v)))
+                        return rest(env3, st3)
+                    return self.bind_part("%s[%s]?" % (par(cur.t), i.t), "e", "elem", env2, st2, kb)
+                return self.exs([rhs, lhs[2]], env, st, fl, ki)
             raise Untranslatable("assignment to this place")
         raise Untranslatable("statement " + kind)
 
@@ -1413,6 +1461,120 @@ class Comp:
         if any(t != "ptr" for t in tys):
             return None
         return "(" + text + ")" if "\n" not in text else "(\n" + ind(text) + ")", "ptr"
+
+    # ------------------------------------------------------------------ loops with mutable locals
+    def state_loop(self, kind, head, pat, body, env, st, fl, rest):
+        """`while c { .. }` / `for i in lo..hi { .. }` whose body mutates locals: a recursive definition that
+        threads the builder state and the mutated locals.  `while`: fuel `wf` (a parameter of the function),
+        out of fuel = none.  `for`: recursion on the number of remaining iterations."""
+        ctx = self.ctx
+        if st.a is None or self.spec["state"] != "a":
+            raise Untranslatable("loop in a function without builder state")
+        if kind == "while" and "wf" not in ctx_names(self.spec["ctx"]):
+            raise Untranslatable("`while` loop in a function without a fuel parameter")
+        if kind == "while" and getattr(self, "in_while", 0):
+            raise Untranslatable("nested `while` loops (one fuel parameter per function: fuel accounting is outside the grammar)")
+        if kind == "for" and (pat is None or pat[0] != "bind"):
+            raise Untranslatable("loop pattern")
+        self.none()
+        muts = [n for n in mutated_vars(body) if n in env]
+        for n in muts:
+            if env[n].ty not in ("nat", "elems", "ptr", "bool"):
+                raise Untranslatable("loop mutates a " + env[n].ty)
+
+        def after_head(hv, env1, st1):
+            ctx.nloops += 1
+            lname = "%s_%s%d" % (self.spec["lean"].rstrip("?"), kind, ctx.nloops)
+            outer = list(ctx.binders.keys())
+            envb = dict(env1)
+            envb["%pending"] = ()
+            envb["%part"] = {}
+            mparams = []
+            for n in muts:
+                x = ctx.fresh(n, LEAN_TY[env1[n].ty])
+                envb[n] = Val(env1[n].ty, x)
+                mparams.append(x)
+            ivar = None
+            if kind == "for":
+                ivar = ctx.fresh(pat[1], "Nat")
+                envb[pat[1]] = Val("nat", ivar)
+            sig = self.spec["sigma"]
+            mty = " × ".join(LEAN_TY[env1[n].ty] for n in muts) or "Unit"
+
+            def tup(e):
+                return "(" + ", ".join(e[n].t for n in muts) + ")" if muts else "()"
+
+            def margs(e):
+                return " ".join(par(e[n].t) for n in muts)
+            CALL = "\x00CALL\x00"
+
+            def cont(envc, stc):
+                if envc.get("%pending"):
+                    raise Untranslatable("push inside an index loop")
+                if kind == "while":
+                    return ("%s fuel %s %s" % (CALL, stc.a, margs(envc))).rstrip()
+                return ("%s k %s (%s + 1) %s" % (CALL, stc.a, ivar, margs(envc))).rstrip()
+
+            def brk(envc, stc):
+                return "some (%s, %s)" % (stc.a, tup(envc))
+
+            def ret(v, envc, stc):
+                raise Untranslatable("`return` inside an index loop")
+            flb = Flow(ret=ret, cont=cont, brk=brk, vec=None)
+            saved_rt = self.rtype
+            self.rtype = "Option (%s × (%s))" % (sig, mty)
+            try:
+                stb = State(a="st", i="st")
+                if kind == "while":
+                    c = self.try_pure(head, envb, stb)
+                    if c is None or c.ty not in ("bool", "prop"):
+                        raise Untranslatable("loop condition with effects")
+                    self.in_while = getattr(self, "in_while", 0) + 1
+                    try:
+                        inner = self.block(body, envb, stb, flb, lambda v, envc, stc: cont(envc, stc))
+                    finally:
+                        self.in_while -= 1
+                    body_text = "if %s then\n%s\nelse\n%s" % (as_prop(c), ind(inner), ind(brk(envb, stb)))
+                else:
+                    body_text = self.block(body, envb, stb, flb, lambda v, envc, stc: cont(envc, stc))
+            finally:
+                self.rtype = saved_rt
+            free = [n for n in outer if re.search(r"(?<![A-Za-z0-9_.'])%s(?![A-Za-z0-9_'])" % re.escape(n), body_text)]
+            params = " ".join("(%s : %s)" % (n, ctx.binders[n]) for n in free)
+            call = " ".join([lname] + ctx_names(self.spec["ctx"]) + free)
+            body_text = body_text.replace(CALL, call)
+            mpat = "".join(", " + x for x in mparams)
+            mtys = "".join(" → " + LEAN_TY[env1[n].ty] for n in muts)
+            if kind == "while":
+                ctx.loops.append("def %s %s %s : Nat → %s%s → Option (%s × (%s))\n  | 0, st%s => none\n"
+                                 "  | fuel + 1, st%s =>\n%s\n" % (lname, self.spec["ctx"], params, sig, mtys, sig, mty,
+                                                                  mpat, mpat, ind(body_text, 4)))
+                site = "%s wf %s %s" % (call, st1.a, margs(env1))
+            else:
+                ctx.loops.append("def %s %s %s : Nat → %s → Nat%s → Option (%s × (%s))\n  | 0, st, %s%s => some (st, %s)\n"
+                                 "  | k + 1, st, %s%s =>\n%s\n" % (lname, self.spec["ctx"], params, sig, mtys, sig, mty,
+                                                                   ivar, mpat, tup(envb) if False else "(" + ", ".join(mparams) + ")" if mparams else "()",
+                                                                   ivar, mpat, ind(body_text, 4)))
+                lo, hi = hv
+                site = "%s (%s - %s) %s %s %s" % (call, par(hi.t), par(lo.t), st1.a, par(lo.t), margs(env1))
+            s2 = ctx.fresh("st")
+            env2 = dict(env1)
+            env2["%part"] = {}
+            news = []
+            for n in muts:
+                x = ctx.fresh(n, LEAN_TY[env1[n].ty])
+                env2[n] = Val(env1[n].ty, x)
+                news.append(x)
+            pat_t = "(" + ", ".join(news) + ")" if news else "_"
+            return "match %s with\n| none => none\n| some (%s, %s) =>\n%s" % (
+                site.rstrip(), s2, pat_t, ind(rest(env2, st1.with_(a=s2))))
+        if kind == "while":
+            return after_head(None, env, st)
+        lo = self.try_pure(head[1], env, st)
+        hi = self.try_pure(head[2], env, st)
+        if lo is None or hi is None or lo.ty != "nat" or hi.ty != "nat":
+            raise Untranslatable("range bounds")
+        return after_head((lo, hi), env, st)
 
     # ------------------------------------------------------------------ loops
     def for_(self, pat, it, body, env, st, fl, rest):
@@ -1542,6 +1704,28 @@ class Comp:
         return self.ex(it, env, st, fl, after_iter)
 
 
+def mutated_vars(body):
+    """locals assigned / mutated in place inside a loop body, in order of first occurrence"""
+    out = []
+
+    def base(e):
+        while e[0] in ("index", "field", "un"):
+            e = e[1] if e[0] != "un" else e[2]
+        return e[1] if e[0] == "id" else None
+    for n in walk(body):
+        v = None
+        if n and n[0] == "assign":
+            v = base(n[2])
+        elif n and n[0] == "mcall" and len(n) == 4 and n[2] in ("swap_remove", "push", "sort_by_key", "pop", "remove", "insert",
+                                                               "truncate", "clear"):
+            v = base(n[1])
+        elif n and n[0] == "mcall" and len(n) == 4 and n[2] == "compress" and n[3] and n[3][0][0] == "un":
+            v = base(n[3][0])
+        if v and v != "self" and v not in out:
+            out.append(v)
+    return out
+
+
 def memo(f):
     """compile a continuation once and reuse its text (the loops inside it are then emitted once)"""
     box = []
@@ -1625,7 +1809,7 @@ II = "(I : CacheImpl (Ptr × Ptr × Ptr))"
 def S(rust, file, lean, alias, ctx="", state=None, ret="val", partial=False, rty="ptr", sigma="σ", selfptr=False,
       loops=()):
     lean = "r" + lean[0].upper() + lean[1:]
-    loops = [(lean.rstrip("?") + "_loop%d" % (j + 1), a) for j, (_, a) in enumerate(loops)]
+    loops = [(n if n.startswith("r") else (lean.rstrip("?") + "_loop%d" % (j + 1)), a) for j, (n, a) in enumerate(loops)]
     return dict(rust=rust, file=file, lean=lean, alias=alias, ctx=ctx, state=state, ret=ret, partial=partial, rty=rty,
                 sigma=sigma, selfptr=selfptr, loops=list(loops))
 
@@ -1681,8 +1865,9 @@ SPECS = [
     S("canonicalize_base_case", C, "canonBase?", "fun (node : List Sdd.Elem) => some (Sdd.canonBase? node)", partial=True,
       rty="opt:ptr"),
     S("canonicalize", C, "canonicalize", "@Sdd.canonicalize", ctx=SIG_AND, state="a", ret="stval", partial=True),
-    S("compress", C, "compress", "@Sdd.compress", ctx="{σ : Type} (andF : AndF σ)", state="a", ret="stval", partial=True,
-      rty="elems"),
+    S("compress", C, "compress", "@TieSddCoreCompress.compressIdx", ctx="{σ : Type} (wf : Nat) (andF : AndF σ)", state="a",
+      ret="stval", partial=True, rty="elems",
+      loops=[("rCompress_for1", "@TieSddCoreCompress.compressFor"), ("rCompress_while2", "@TieSddCoreCompress.compressWhile")]),
     S("app_cache_get", C, "appCacheGet", "fun " + AA + " (st : A.σ) (k : Sdd.Elem) => A.get st k", ctx=AA, sigma="A.σ",
       state="a", ret="val", rty="opt:ptr"),
     S("app_cache_insert", C, "appCacheInsert", "fun " + AA + " (st : A.σ) (k : Sdd.Elem) (r : Sdd.Ptr) => A.insert st k r",
@@ -1700,6 +1885,10 @@ def compile_fn(spec, toks):
     rty = rust_type(ret) if not (spec["rust"] == "vtree" and spec["file"] == R) else "nat"
     if spec["rust"] in ("vtree_index",):
         rty = "nat"
+    if spec["rust"] == "compress":
+        if rty != "unit" or [t for _, t in params if t != "&self"] == [] :
+            raise Untranslatable("signature of compress")
+        rty = "elems"        # the `&mut Vec` out-parameter
     if rty != spec["rty"] and not (rty == "unit" and spec["ret"] == "state") and not (spec["rust"] == "compress"):
         raise Untranslatable("return type `%s`" % ret)
     last = None
@@ -1747,6 +1936,13 @@ def compile_fn(spec, toks):
             st = State("s.1", "s.2", "s")
             stb = "(s : %s)" % sp["sigma"]
         kret = comp.mk_ret_k()
+        if spec["rust"] == "compress":
+            # `&mut Vec` out-parameter: the function returns the final vector
+            inner_k = kret
+
+            def kret(v, env2, st2, inner_k=inner_k):
+                return inner_k(env2["node"], env2, st2)
+            kret.tail = False
         fl = Flow(ret=kret)
         T = LEAN_TY.get(rty, "Unit")
         if rty == "elems":
@@ -1798,6 +1994,7 @@ def write_if_changed(path, text):
 
 HEADER = """import RsddModel.Model.Sdd
 import RsddModel.Lemmas.TieSddCoreAux
+import RsddModel.Lemmas.TieSddCoreCompress
 /-!
 # Generated by tools/gen_sddcore.py from the Rust source — do not edit
 
@@ -1817,6 +2014,8 @@ def main():
     for spec in SPECS:
         key = "%s::%s" % (os.path.basename(spec["file"]), spec["rust"])
         try:
+            if os.environ.get("SDDCORE_FORCE_ALIAS"):
+                raise Untranslatable("forced alias mode (SDDCORE_FORCE_ALIAS)")
             if spec["file"] not in toks_cache:
                 toks_cache[spec["file"]] = tokenize(open(os.path.join(REPO, spec["file"])).read())
             text, nl = compile_fn(spec, toks_cache[spec["file"]])
